@@ -5,6 +5,7 @@ from ..r_stereo import rule_tetrahedron_table, rule_alkene_table, rule_ladders
 from ..r_codebooks import rule_closure_slots as _rule_closure_slots
 from ..r_construct import rule_seeded_string_complete as _rule_seeded
 from ..r_hygiene import rule_hygiene as _rule_hygiene
+from ..r_canon import rule_closure_id_scope as _rule_cid_scope
 from ..r_canon import rule_closure_order_consumers as _rule_closure_order, rule_elemental_bracket as _rule_elemental, rule_bare_string_for_reaction as _rule_bare
 from ..r_alias import rule_retry_flush as _rule_retry_flush
 from ..r_codebooks import rule_cx_radical_lists as _rule_cxr
@@ -26,6 +27,7 @@ def run(ck, repo):
     _rule_closure_slots(ck, repo, 'C02.D2-closure-slots')
     _rule_seeded(ck, repo, 'C02.D2-seeded-string')
     _rule_hygiene(ck, repo, 'C02.H-dataflow-hygiene', 'C02')
+    _rule_cid_scope(ck, repo, 'C02.D3-closure-id-scope')
     _rule_closure_order(ck, repo, 'C02.D3-closure-order')
     _rule_elemental(ck, repo, 'C02.D1-elemental-bracket')
     _rule_bare(ck, repo, 'C02.D2-bare-string')
